@@ -10,10 +10,12 @@ ends behave like the model comes from the end-to-end comparison (harness unit
 `frontends_findings`: `scan` on a file, the three JSON styles, `--format github`, `scan --stdin`,
 `sg test`, in-process language server), which also confirmed H17 on the pinned code.
 
-Scope of `frontends_same_findings`: rule sets of one language (stdin mode parses the text in the
-language of the first rule), texts without suppression comments (`sg test` does not apply them:
-`test_ignores_suppression` is observed by the harness on the real CLI), and either no
-`severity: off` rule or the code with FIX_C09 (`stdin_runs_off_rules_example`, H17).
+Scope of `frontends_same_findings`: texts without suppression comments (`sg test` does not apply
+them: `test_ignores_suppression` is observed by the harness on the real CLI), either no
+`severity: off` rule or the code with FIX_C09 (`stdin_runs_off_rules_example`, H17), and either no
+rule written for another language than the document's (`FRule.foreign`; stdin mode parses the text
+in the language of the first rule) or the code with the second part of FIX_C09
+(`stdin_runs_foreign_rules_example`: the pinned `scan --stdin` ran such a rule on the foreign tree).
 The three JSON styles print the same records and differ only in framing (C16 `JsonFrame`); they
 are one function here and three comparisons in the harness.
 -/
@@ -22,10 +24,12 @@ import AstGrepVerif.Props.C07
 
 namespace AGV.Spec
 
-/-- **What the property says is reported**: a rule that is not switched off reports each of its
-matches, as (rule id, byte range of the node, message with the variables substituted). -/
+/-- **What the property says is reported**: a rule that is not switched off and is written for the
+document's language reports each of its matches, as (rule id, byte range of the node, message with
+the variables substituted). -/
 def Reported (src : Bytes) (rs : List AGV.RuleMatches) (k : Bytes × AGV.Rng × Bytes) : Prop :=
-  ∃ rm ∈ rs, rm.1.sev ≠ .off ∧ ∃ m ∈ rm.2, k = (rm.1.id, m.node, AGV.getMessage src rm.1 m)
+  ∃ rm ∈ rs, rm.1.sev ≠ .off ∧ rm.1.foreign = false ∧
+    ∃ m ∈ rm.2, k = (rm.1.id, m.node, AGV.getMessage src rm.1 m)
 
 end AGV.Spec
 
@@ -73,6 +77,24 @@ theorem inText_enabled {src : Bytes} {rs : List RuleMatches} (h : InText src rs)
   intro rm hrm m hm
   exact h rm (List.mem_filter.mp hrm).1 m hm
 
+theorem inText_own {src : Bytes} {rs : List RuleMatches} (h : InText src rs) :
+    InText src (ownRules rs) := by
+  intro rm hrm m hm
+  exact h rm (List.mem_filter.mp hrm).1 m hm
+
+theorem inText_file {src : Bytes} {rs : List RuleMatches} (h : InText src rs) :
+    InText src (fileRules rs) :=
+  inText_own (inText_enabled h)
+
+theorem foreign_not (b : Bool) : (!b) = true ↔ b = false := by
+  cases b <;> decide
+
+/-- membership in the rules a file scan applies -/
+theorem mem_fileRules {rs : List RuleMatches} {rm : RuleMatches} :
+    rm ∈ fileRules rs ↔ rm ∈ rs ∧ rm.1.sev ≠ .off ∧ rm.1.foreign = false := by
+  unfold fileRules ownRules enabledRules
+  rw [List.mem_filter, List.mem_filter, sev_bne_off, foreign_not, and_assoc]
+
 theorem findingsOfRules_eq (src : Bytes) (rs : List RuleMatches) (hin : InText src rs) :
     findingsOfRules src rs = some (rs.flatMap fun rm => rm.2.map (mk src rm.1)) := by
   unfold findingsOfRules
@@ -83,24 +105,24 @@ theorem findingsOfRules_eq (src : Bytes) (rs : List RuleMatches) (hin : InText s
 
 /-- closed form of what `scan` on a file reports -/
 def scanList (src : Bytes) (rs : List RuleMatches) : List Finding :=
-  (enabledRules rs).flatMap fun rm => rm.2.map (mk src rm.1)
+  (fileRules rs).flatMap fun rm => rm.2.map (mk src rm.1)
 
 theorem scanFindings_eq (src : Bytes) (rs : List RuleMatches) (hin : InText src rs) :
     scanFindings src rs = some (scanList src rs) :=
-  findingsOfRules_eq src _ (inText_enabled hin)
+  findingsOfRules_eq src _ (inText_file hin)
 
 /-- **`scan` reports exactly what the property says** (sound and complete w.r.t. `Spec.Reported`). -/
 theorem scan_reports_spec (src : Bytes) (rs : List RuleMatches) (k : Bytes × Rng × Bytes) :
     (∃ f ∈ scanList src rs, key f = k) ↔ Reported src rs k := by
-  unfold scanList Reported enabledRules
+  unfold scanList Reported
   constructor
   · rintro ⟨f, hf, rfl⟩
     obtain ⟨rm, hrm, hfm⟩ := List.mem_flatMap.mp hf
     obtain ⟨m, hm, rfl⟩ := List.mem_map.mp hfm
-    have := List.mem_filter.mp hrm
-    exact ⟨rm, this.1, (sev_bne_off _).mp this.2, m, hm, by simp only [key, mk]⟩
-  · rintro ⟨rm, hrm, hoff, m, hm, rfl⟩
-    refine ⟨mk src rm.1 m, List.mem_flatMap.mpr ⟨rm, List.mem_filter.mpr ⟨hrm, (sev_bne_off _).mpr hoff⟩, ?_⟩, by simp only [key, mk]⟩
+    have := mem_fileRules.mp hrm
+    exact ⟨rm, this.1, this.2.1, this.2.2, m, hm, by simp only [key, mk]⟩
+  · rintro ⟨rm, hrm, hoff, hown, m, hm, rfl⟩
+    refine ⟨mk src rm.1 m, List.mem_flatMap.mpr ⟨rm, mem_fileRules.mpr ⟨hrm, hoff, hown⟩, ?_⟩, by simp only [key, mk]⟩
     exact List.mem_map.mpr ⟨m, hm, rfl⟩
 
 /-- no rule is switched off -/
@@ -112,16 +134,44 @@ theorem enabledRules_of_noOff {rs : List RuleMatches} (h : NoOff rs) : enabledRu
   intro rm hrm
   exact (sev_bne_off _).mpr (h rm hrm)
 
-/-- **stdin = file**: with FIX_C09, or when no rule is `off` (any code base). -/
+/-- no rule is written for another language than the document's -/
+def NoForeign (rs : List RuleMatches) : Prop := ∀ rm ∈ rs, rm.1.foreign = false
+
+theorem ownRules_of_noForeign {rs : List RuleMatches} (h : NoForeign rs) : ownRules rs = rs := by
+  unfold ownRules
+  apply List.filter_eq_self.mpr
+  intro rm hrm
+  exact (foreign_not _).mpr (h rm hrm)
+
+theorem noForeign_enabled {rs : List RuleMatches} (h : NoForeign rs) : NoForeign (enabledRules rs) :=
+  fun rm hrm => h rm (List.mem_filter.mp hrm).1
+
+/-- the rules `scan --stdin` applies are the rules a file scan applies -/
+theorem stdinRules_eq_fileRules (v : Variant) (rs : List RuleMatches)
+    (hoff : v.stdinFiltersOff = true ∨ NoOff rs) (hlang : v.stdinFiltersLang = true ∨ NoForeign rs) :
+    stdinRules v rs = fileRules rs := by
+  have h1 : (if v.stdinFiltersOff = true then enabledRules rs else rs) = enabledRules rs := by
+    rcases hoff with h | h
+    · simp [h]
+    · simp [enabledRules_of_noOff h]
+  unfold stdinRules fileRules
+  simp only [h1]
+  rcases hlang with h | h
+  · simp [h]
+  · simp [ownRules_of_noForeign (noForeign_enabled h)]
+
+/-- **stdin = file**: with FIX_C09, or when no rule is `off` and no rule is written for another
+language than the one stdin is parsed as (any code base). -/
 theorem stdin_eq_file (v : Variant) (src : Bytes) (rs : List RuleMatches)
-    (h : v.stdinFiltersOff = true ∨ NoOff rs) :
+    (h : (v.stdinFiltersOff = true ∨ NoOff rs) ∧ (v.stdinFiltersLang = true ∨ NoForeign rs)) :
     stdinFindings v src rs = scanFindings src rs := by
   unfold stdinFindings scanFindings
-  rcases h with h | h
-  · simp [h]
-  · cases hv : v.stdinFiltersOff
-    · simp [enabledRules_of_noOff h]
-    · simp
+  rw [stdinRules_eq_fileRules v rs h.1 h.2]
+
+/-- **stdin = file, repaired code**: no condition on the rule set. -/
+theorem stdin_eq_file_fixed (src : Bytes) (rs : List RuleMatches) :
+    stdinFindings .fixed src rs = scanFindings src rs :=
+  stdin_eq_file .fixed src rs ⟨Or.inl rfl, Or.inl rfl⟩
 
 /-- **`stdin_runs_off_rules_example`** (H17, pinned code): one `off` rule with one match (node 0..1
 of the text `1`): the file scan reports nothing, `--stdin` reports the match.  With FIX_C09 both
@@ -134,6 +184,30 @@ theorem stdin_runs_off_rules_example :
     stdinFindings .fixed [0x31] rs = some [] := by
   decide
 
+/-- **`stdin_runs_foreign_rules_example`** (pinned code before the second part of FIX_C09): the text
+`try{}finally{}`, parsed as JavaScript because the first rule is a JavaScript rule (`j`, one match:
+the whole statement 0..14); the second rule (`t`) is written for TypeScript, and its matcher, which
+compares numeric kind ids of the TypeScript grammar, answers yes on the keyword `finally` (5..12).
+The file scan reports `j` only, `--stdin` reports both.  With the fix both report `j` only; if only
+the `off` filter is present (the code between the two fixes) stdin still reports `t`.  Replayed on
+the real CLI by the harness (`try { console.log(1) } finally { f() }`, TypeScript `pattern: debugger`). -/
+theorem stdin_runs_foreign_rules_example :
+    let src : Bytes := [0x74, 0x72, 0x79, 0x7b, 0x7d, 0x66, 0x69, 0x6e, 0x61, 0x6c, 0x6c, 0x79, 0x7b, 0x7d]
+    let j : FRule := { id := [0x6a], sev := .error, message := [0x6d], note := none, keys := [] }
+    let t : FRule := { id := [0x74], sev := .warning, message := [0x74, 0x73], note := none, keys := [],
+                       foreign := true }
+    let rs : List RuleMatches :=
+      [(j, [{ node := ⟨0, 14⟩, env := {} }]), (t, [{ node := ⟨5, 12⟩, env := {} }])]
+    (scanFindings src rs).map (·.map key) = some [([0x6a], ⟨0, 14⟩, [0x6d])] ∧
+    (stdinFindings .pinned src rs).map (·.map key)
+      = some [([0x6a], ⟨0, 14⟩, [0x6d]), ([0x74], ⟨5, 12⟩, [0x74, 0x73])] ∧
+    (stdinFindings ⟨false, false, false, true, false⟩ src rs).map (·.map key)
+      = some [([0x6a], ⟨0, 14⟩, [0x6d]), ([0x74], ⟨5, 12⟩, [0x74, 0x73])] ∧
+    stdinFindings .fixed src rs = scanFindings src rs ∧
+    stdinFindings .pinned src rs ≠ scanFindings src rs := by
+  intro src j t rs
+  refine ⟨by decide, by decide, by decide, by decide, by decide⟩
+
 /-- the diagnostic of a finding -/
 def lspOf (r : FRule) (f : Finding) : LspFinding :=
   { id := f.id, start := f.start, stop := f.stop, message := lspMessage r f.message,
@@ -141,14 +215,14 @@ def lspOf (r : FRule) (f : Finding) : LspFinding :=
 
 theorem lspDiagnostics_eq (src : Bytes) (rs : List RuleMatches) (hin : InText src rs) :
     lspDiagnostics src rs
-      = some ((enabledRules rs).flatMap fun rm => rm.2.map fun m => lspOf rm.1 (mk src rm.1 m)) := by
+      = some ((fileRules rs).flatMap fun rm => rm.2.map fun m => lspOf rm.1 (mk src rm.1 m)) := by
   unfold lspDiagnostics
   rw [allSome_map_of_forall _ (fun rm : RuleMatches => rm.2.map fun m => lspOf rm.1 (mk src rm.1 m))]
   · simp [List.flatMap]
   · intro rm hrm
     unfold lspFindingsOfRule
     rw [allSome_map_of_forall _ (mk src rm.1) _
-      (fun m hm => findingOf?_eq src rm.1 m (inText_enabled hin rm hrm m hm))]
+      (fun m hm => findingOf?_eq src rm.1 m (inText_file hin rm hrm m hm))]
     simp [lspOf]
 
 /-- GitHub level of a severity (`hint` is not annotated) -/
@@ -158,7 +232,7 @@ def ghLevel : Sev → Option GhLevel
 
 theorem githubFindings_eq (src : Bytes) (rs : List RuleMatches) (hin : InText src rs) :
     githubFindings src rs
-      = some ((enabledRules rs).flatMap fun rm =>
+      = some ((fileRules rs).flatMap fun rm =>
           match ghLevel rm.1.sev with
           | none => []
           | some l => rm.2.map fun m =>
@@ -174,12 +248,12 @@ theorem githubFindings_eq (src : Bytes) (rs : List RuleMatches) (hin : InText sr
   · simp [List.flatMap]
   · intro rm hrm
     have hall := allSome_map_of_forall (findingOf? src rm.1) (mk src rm.1) rm.2
-      (fun m hm => findingOf?_eq src rm.1 m (inText_enabled hin rm hrm m hm))
+      (fun m hm => findingOf?_eq src rm.1 m (inText_file hin rm hrm m hm))
     unfold githubOfRule
     cases hs : rm.1.sev <;> simp [ghLevel, hall]
 
 /-- **`frontends_same_findings`**.  For a rule set and a text whose matched nodes lie in the text,
-with FIX_C09 or without `off` rules:
+with FIX_C09 or without `off` rules and without rules of another language:
 * `scan` on a file (= each JSON style) reports exactly the `Spec.Reported` triples;
 * `scan --stdin` reports the same list;
 * the language server publishes one diagnostic per reported finding: same rule id, same
@@ -188,14 +262,15 @@ with FIX_C09 or without `off` rules:
 * the GitHub format prints one annotation per reported finding of a rule above `hint`: same id,
   same message, one-based lines. -/
 theorem frontends_same_findings (v : Variant) (src : Bytes) (rs : List RuleMatches)
-    (hin : InText src rs) (hoff : v.stdinFiltersOff = true ∨ NoOff rs) :
+    (hin : InText src rs)
+    (hoff : (v.stdinFiltersOff = true ∨ NoOff rs) ∧ (v.stdinFiltersLang = true ∨ NoForeign rs)) :
     scanFindings src rs = some (scanList src rs) ∧
     (∀ k, (∃ f ∈ scanList src rs, key f = k) ↔ Reported src rs k) ∧
     stdinFindings v src rs = some (scanList src rs) ∧
     lspDiagnostics src rs
-      = some ((enabledRules rs).flatMap fun rm => (rm.2.map (mk src rm.1)).map (lspOf rm.1)) ∧
+      = some ((fileRules rs).flatMap fun rm => (rm.2.map (mk src rm.1)).map (lspOf rm.1)) ∧
     githubFindings src rs
-      = some ((enabledRules rs).flatMap fun rm =>
+      = some ((fileRules rs).flatMap fun rm =>
           match ghLevel rm.1.sev with
           | none => []
           | some l => (rm.2.map (mk src rm.1)).map fun f => (f.id, l, f.start.1 + 1, f.stop.1 + 1, f.message)) := by
@@ -207,10 +282,12 @@ theorem frontends_same_findings (v : Variant) (src : Bytes) (rs : List RuleMatch
     exact flatMap_congr' _ (fun rm _ => by
       cases ghLevel rm.1.sev <;> simp [List.map_map, Function.comp_def])
 
-/-- **`sg test`**: for a rule that is not `off`, in a rule set with distinct ids, a `valid` case
-passes iff `scan` reports no finding of that rule on the case's text. -/
+/-- **`sg test`**: for a rule that is not `off` and is written for the document's language (the test
+runner parses a case in the language of the rule under test: for a foreign rule it looks at another
+tree than `scan` does), in a rule set with distinct ids, a `valid` case passes iff `scan` reports no
+finding of that rule on the case's text. -/
 theorem test_valid_iff_no_finding (src : Bytes) (rs : List RuleMatches) (r : FRule) (ms : List FMatch)
-    (hmem : (r, ms) ∈ rs) (hne : r.sev ≠ .off)
+    (hmem : (r, ms) ∈ rs) (hne : r.sev ≠ .off) (hown : r.foreign = false)
     (hids : ∀ rm ∈ rs, rm.1.id = r.id → rm = (r, ms)) :
     testVerdictValid r ms = some true ↔ ∀ f ∈ scanList src rs, f.id ≠ r.id := by
   simp only [testVerdictValid, hne, ↓reduceIte, Option.some.injEq, List.isEmpty_iff]
@@ -218,7 +295,7 @@ theorem test_valid_iff_no_finding (src : Bytes) (rs : List RuleMatches) (r : FRu
   · intro hnil f hf hid
     obtain ⟨rm, hrm, hfm⟩ := List.mem_flatMap.mp hf
     obtain ⟨m, hm, rfl⟩ := List.mem_map.mp hfm
-    have := hids rm (List.mem_filter.mp hrm).1 hid
+    have := hids rm (mem_fileRules.mp hrm).1 hid
     subst this
     simp [hnil] at hm
   · intro h
@@ -228,7 +305,7 @@ theorem test_valid_iff_no_finding (src : Bytes) (rs : List RuleMatches) (r : FRu
       exfalso
       refine h (mk src r m) ?_ rfl
       apply List.mem_flatMap.mpr
-      refine ⟨(r, m :: rest), List.mem_filter.mpr ⟨hmem, (sev_bne_off _).mpr hne⟩, ?_⟩
+      refine ⟨(r, m :: rest), mem_fileRules.mpr ⟨hmem, hne, hown⟩, ?_⟩
       simp
 
 /-- an `off` rule has no test verdict ("Configuration not found") -/
@@ -263,9 +340,10 @@ example :
     testVerdictValid r [m] = some false := by
   decide
 
-example : InText [0x61, 0x62] [(⟨[0x72], .warning, [], none, []⟩, [{ node := ⟨0, 2⟩, env := {} }])] ∧
-    NoOff [((⟨[0x72], .warning, [], none, []⟩ : FRule), ([{ node := ⟨0, 2⟩, env := {} }] : List FMatch))] := by
-  constructor
+example : InText [0x61, 0x62] [(⟨[0x72], .warning, [], none, [], false⟩, [{ node := ⟨0, 2⟩, env := {} }])] ∧
+    NoOff [((⟨[0x72], .warning, [], none, [], false⟩ : FRule), ([{ node := ⟨0, 2⟩, env := {} }] : List FMatch))] ∧
+    NoForeign [((⟨[0x72], .warning, [], none, [], false⟩ : FRule), ([{ node := ⟨0, 2⟩, env := {} }] : List FMatch))] := by
+  refine ⟨?_, ?_, ?_⟩
   · intro rm hrm m hm
     simp at hrm; subst hrm
     simp at hm; subst hm
@@ -273,15 +351,42 @@ example : InText [0x61, 0x62] [(⟨[0x72], .warning, [], none, []⟩, [{ node :=
   · intro rm hrm
     simp at hrm; subst hrm
     decide
+  · intro rm hrm
+    simp at hrm; subst hrm
+    rfl
+
+/-- non-vacuity of the second disjunct pair of `stdin_eq_file`: a rule set WITH an `off` rule and a
+foreign rule that has a match satisfies the hypotheses for the repaired code (and only for it: the
+hypotheses fail for the pinned code), and the conclusion is not the trivial `none = none` -/
+example :
+    let o : FRule := { id := [0x6f], sev := .off, message := [], note := none, keys := [] }
+    let t : FRule := { id := [0x74], sev := .warning, message := [], note := none, keys := [], foreign := true }
+    let w : FRule := { id := [0x77], sev := .warning, message := [], note := none, keys := [] }
+    let rs : List RuleMatches :=
+      [(w, [{ node := ⟨0, 1⟩, env := {} }]), (o, [{ node := ⟨0, 2⟩, env := {} }]), (t, [{ node := ⟨1, 2⟩, env := {} }])]
+    ((Variant.fixed.stdinFiltersOff = true ∨ NoOff rs) ∧ (Variant.fixed.stdinFiltersLang = true ∨ NoForeign rs)) ∧
+    ¬ NoOff rs ∧ ¬ NoForeign rs ∧
+    ¬ ((Variant.pinned.stdinFiltersOff = true ∨ NoOff rs) ∧ (Variant.pinned.stdinFiltersLang = true ∨ NoForeign rs)) ∧
+    (stdinFindings .fixed [0x61, 0x62] rs).map (·.map key) = some [([0x77], ⟨0, 1⟩, [])] := by
+  intro o t w rs
+  have hno : ¬ NoOff rs := fun h =>
+    h (o, [{ node := ⟨0, 2⟩, env := {} }]) (List.mem_cons_of_mem _ List.mem_cons_self) rfl
+  have hnf : ¬ NoForeign rs := fun h =>
+    absurd (h (t, [{ node := ⟨1, 2⟩, env := {} }])
+      (List.mem_cons_of_mem _ (List.mem_cons_of_mem _ List.mem_cons_self))) (by decide)
+  refine ⟨⟨Or.inl rfl, Or.inl rfl⟩, hno, hnf, ?_, by decide⟩
+  rintro ⟨h | h, _⟩
+  · exact absurd h (by decide)
+  · exact hno h
 
 /-- the hypotheses of `test_valid_iff_no_finding` hold for a two-rule set with distinct ids -/
 example :
-    let r0 : FRule := ⟨[0x72, 0x30], .warning, [], none, []⟩
-    let r1 : FRule := ⟨[0x72, 0x31], .error, [], none, []⟩
+    let r0 : FRule := ⟨[0x72, 0x30], .warning, [], none, [], false⟩
+    let r1 : FRule := ⟨[0x72, 0x31], .error, [], none, [], false⟩
     let rs : List RuleMatches := [(r0, []), (r1, [{ node := ⟨0, 1⟩, env := {} }])]
-    (r0, []) ∈ rs ∧ r0.sev ≠ .off ∧ (∀ rm ∈ rs, rm.1.id = r0.id → rm = (r0, [])) ∧
+    (r0, []) ∈ rs ∧ r0.sev ≠ .off ∧ r0.foreign = false ∧ (∀ rm ∈ rs, rm.1.id = r0.id → rm = (r0, [])) ∧
     testVerdictValid r0 [] = some true := by
-  refine ⟨by simp, by decide, ?_, by decide⟩
+  refine ⟨by simp, by decide, rfl, ?_, by decide⟩
   intro rm hrm hid
   simp only [List.mem_cons, List.not_mem_nil, or_false] at hrm
   rcases hrm with rfl | rfl
